@@ -63,15 +63,18 @@ def chrText : KV → KV
   | .int i => .str (intStr i)
   | k => k
 
-/-- positions given as text are read as integers (`int(v)`); `ValueError` otherwise -/
+/-- positions given as text are read as integers (`int(v)`); a text that `int()` cannot
+    read makes the record un-keyable: `KeyError`, exactly like a missing coordinate column -/
 def posInt : KV → Except PyErr KV
   | .str s => match pyInt s with
     | some i => .ok (.int i)
-    | none => .error .value
+    | none => .error .key
   | k => .ok k
 
-/-- `sort_order.sort_key()(record)`: `KeyError` when coordinates are missing,
-    `ValueError` when a contig list is given and does not contain the chromosome. -/
+/-- `sort_order.sort_key()(record)`: `KeyError` when the record cannot be keyed (coordinates
+    are missing, or a position is a text that is not a number); `ValueError` when a contig
+    list is given and does not contain the chromosome.  Evaluation order: chromosome
+    (`KeyError`), contig lookup (`ValueError`), start, end (`KeyError`). -/
 def mkKey (o : Order) (contigs : List Text) (r : Loc) : Except PyErr Key :=
   if !r.hasCoords then .error .key
   else do
@@ -116,8 +119,8 @@ structure Checker where
   last : Option Loc := none
   deriving Repr, Inhabited
 
-/-- `checker += record`: a record that cannot be keyed (missing coordinates) is
-    skipped; a key smaller than the previous record's is the ordering error. -/
+/-- `checker += record`: a record that cannot be keyed (missing coordinates, or a
+    position text that is not a number) is skipped; a key smaller than the previous record's is the ordering error. -/
 def Checker.add (c : Checker) (r : Loc) : Except PyErr Checker :=
   if !c.order.sortable then .ok { c with last := some r }
   else
